@@ -39,6 +39,7 @@ def spawn_line(sim, c):
 
 
 def to_lines(sim):
+    cancelled = set()
     lines = ["init %s %s %d" % (sim.kind, "none" if sim.cfg.get("limit") is None else sim.cfg["limit"],
                                sim.cfg.get("seq0", 250))]
     if sim.is_hid:
@@ -83,6 +84,7 @@ def to_lines(sim):
                 lines.append("env " + what)
             elif what == "cancel":
                 lines.append("cancel %d" % tmap[e[3]])
+                cancelled.add(e[3])
             # "drop" and "trunc" (only the first bytes of a report arrive, then silence) produce no line: for the
             # model, which has no byte-level receive parser, both are a report that is never delivered
         elif who == "drv":
@@ -107,6 +109,11 @@ def to_lines(sim):
                 lines.append("ev %d write %d %d %s" % (t, e[3], e[4], _b(tw)))
             elif what == "done":
                 r = e[3] if e[3] != "err" else "err:" + str(e[4])
+                if r == "err:SeqBoom" and who in cancelled and isinstance(who, int) and who < len(sim.callers) \
+                        and sim.callers[who].opts.get("cleanup_raises"):
+                    # the clean-up of a cancelled sequence raised while it was being closed: for the lock discipline
+                    # (all the model speaks about) this is the cancelled run; the exception class is not judged
+                    r = "cancelled"
                 lines.append("ev %d done %s" % (t, r))
     o = sim.end_state
     inner = 0 if o["inner_free"] else 1
